@@ -77,8 +77,9 @@ Theorem c13_timeout_not_early : forall pw s b now, reach pw (s, b) -> b_crashed 
     /\ (forall c, zlookup c (b_blk b) = None -> zlookup c (b_blk b') = None).
 Proof. exact timeouts_reply. Qed.
 (** the wake-up phase writes [key, element] only, only to connections that were Blocked on that
-    key (the key of the wake-up or, when that one is empty by then, another key of the call), one
-    each, and exactly the connections it unblocks are those it answers *)
+    key (the key of the wake-up; a wake-up that finds its key empty by then writes nothing:
+    [c13_empty_wakeup_pops_nothing]), one each, and exactly the connections it unblocks are those
+    it answers *)
 Theorem c13_wakeup_delivery : forall pw s b now, reach pw (s, b) -> b_crashed b = false ->
   let b' := snd (step (s, b) (EWakeups now)) in
   exists new, wrote b b' new /\ NoDup (map fst new)
@@ -264,28 +265,61 @@ Example c13_no_stranding_history :
   out_to st' 2 = [FArray [FBulk (bs "q"); FBulk (bs "c")]].
 Proof. vm_compute. repeat split; reflexivity. Qed.
 
-(** ---- open class stolen-wakeup-overtakes (known finding, KNOWN-FINDING line of the check) ----
-    "Clients blocked on a key are served in the order they blocked" fails on one path.  Client 2
-    blocks on r, THEN client 1 blocks on q and r.  One batch pushes to q, pops q again and pushes y
-    to r.  Client 1's wake-up (for q) finds nothing and, as wake_client does since 8ab686d, looks at
-    the client's other keys: it takes y from r - although client 2 blocked on r first and its own
-    wake-up for r is next in the wake-up queue; client 2 is registered again and keeps waiting.
-    The FIFO theorems above are about the queues and the push (a push serves the head of the
-    queue); this fallback bypasses the queue of the other key.  The model is faithful to the code
-    here (the tie agrees on this history), so the statement is refuted for the model AND the
-    implementation; [c13_fifo_*] stay true as stated. *)
+(** ---- stolen-wakeup-overtakes (repaired): the wake-up that finds nothing pops nothing ----
+    "Clients blocked on a key are served in the order they blocked" used to fail on one path.
+    Client 2 blocks on r, THEN client 1 blocks on q and r.  One batch pushes to q, pops q again and
+    pushes y to r.  Client 1's wake-up (for q) finds nothing; wake_client used to look at the
+    client's other keys and TAKE y from r - although client 2 blocked on r first and its own
+    wake-up for r was next in the wake-up queue; client 2 was registered again and kept waiting.
+    Since the repair that wake-up pops nothing: the client is registered again under its old stamp
+    and the HEAD of the queue of each of its keys that holds an element is notified, as a push
+    does.  Here: client 2 gets [r, y] from its own wake-up; client 1's second wake-up (for r, made
+    while y was still there) finds nothing and client 1 keeps waiting on q and r, in its old
+    place (stamp 1). *)
 Definition w_overtake : list event :=
   [EConnect 1; EConnect 2; EConnect 3;
    at0 2 [bs "BLPOP"; bs "r"; bs "0"] (Some 0);
    at0 1 [bs "BLPOP"; bs "q"; bs "r"; bs "0"] (Some 0);
    at0 3 [bs "RPUSH"; bs "q"; bs "x"] None; at0 3 [bs "LPOP"; bs "q"] None;
    at0 3 [bs "RPUSH"; bs "r"; bs "y"] None; EWakeups 0].
-Example c13_fifo_overtake_refuted :
-  all_ok sys0 w_overtake = true /\
+Example c13_fifo_overtake_fixed :
+  all_ok_cons sys0 w_overtake = true /\
   let st := run sys0 w_overtake in
-  out_to st 1 = [FArray [FBulk (bs "r"); FBulk (bs "y")]] /\ out_to st 2 = [] /\
-  waiting st 0 (bs "r") = [2] /\ list_at (fst st) 0 (bs "r") = [].
+  out_to st 2 = [FArray [FBulk (bs "r"); FBulk (bs "y")]] /\ out_to st 1 = [] /\
+  list_at (fst st) 0 (bs "r") = [] /\ waiting st 0 (bs "r") = [] /\
+  map (fun u => (u_conn u, u_key u, u_at u)) (b_wake (snd st)) = [(1, bs "r", 1)] /\
+  let st' := step st (EWakeups 0) in
+  out_to st' 1 = [] /\ out_to st' 2 = [FArray [FBulk (bs "r"); FBulk (bs "y")]] /\
+  waiting st' 0 (bs "q") = [1] /\ waiting st' 0 (bs "r") = [1] /\
+  map w_at (reg_get (b_reg (snd st')) (0, bs "r")) = [1] /\ b_wake (snd st') = [] /\
+  map fst (b_blk (snd st')) = [1].
 Proof. vm_compute. repeat split; reflexivity. Qed.
+(** what that branch does, for every state: the wake-up found nothing on its key and its connection
+    is still Blocked.  Nothing more is popped (the database is the one the failed pop left), nothing
+    is written, the connection stays Blocked; a waiter that is in a queue afterwards was there
+    before or is this client under the stamp of its wake-up; the client is registered on every key
+    of its call under that stamp, or its own wake-up is under way again with that stamp; and every
+    key of the call that holds an element has a wake-up made for it by this step, or nobody is left
+    in its queue.  (Second hypothesis: the connection of a wake-up has no registration - part of
+    [c13_invariant], [wakes_agree].) *)
+Theorem c13_empty_wakeup_pops_nothing : forall now s b u st,
+  zlookup (u_conn u) (b_blk b) = Some st ->
+  (forall rk w, In w (reg_get (b_reg b) rk) -> w_conn w <> u_conn u) ->
+  let d := fst (purge_key now (get_db s (u_db u), []) (u_key u)) in
+  (match fst (on_key d (u_key u) (e_pop (u_left u))) with FBulk _ => False | _ => True end) ->
+  let d' := snd (on_key d (u_key u) (e_pop (u_left u))) in
+  let s' := fst (wake_client now s b u) in
+  let b' := snd (wake_client now s b u) in
+  s' = set_db s (u_db u) d' /\ b_out b' = b_out b /\ b_blk b' = b_blk b /\
+  (forall rk w, In w (reg_get (b_reg b') rk) ->
+     In w (reg_get (b_reg b) rk) \/ (w_conn w = u_conn u /\ w_at w = u_at u /\ fst rk = u_db u /\ bmem (snd rk) (bl_keys st) = true)) /\
+  exists ex, b_wake b' = b_wake b ++ ex /\
+    ((forall k, bmem k (bl_keys st) = true ->
+        exists w, In w (reg_get (b_reg b') (u_db u, k)) /\ w_conn w = u_conn u /\ w_at w = u_at u)
+     \/ exists x, In x ex /\ u_conn x = u_conn u /\ u_at x = u_at u /\ bmem (u_key x) (bl_keys st) = true) /\
+    (forall k, bmem k (bl_keys st) = true -> llen_of d' k <> O ->
+       reg_get (b_reg b') (u_db u, k) = [] \/ exists x, In x ex /\ u_db x = u_db u /\ u_key x = k).
+Proof. exact empty_wakeup_pops_nothing. Qed.
 
 (** ---- the classes that were repaired (all eight): what the witnesses do now ---- *)
 (** blocked-disconnect (fixed c7e6509; was: the element was written to the connection of the
@@ -334,12 +368,16 @@ Example c13_requeue_at_back_fixed :
   out_to st 1 = [FArray [FBulk (bs "q"); FBulk (bs "b")]] /\ out_to st 2 = [] /\ waiting st 0 (bs "q") = [2].
 Proof. vm_compute. repeat split; reflexivity. Qed.
 (** reregister-no-recheck (fixed 8ab686d; was: Blocked beside an element on r with no wake-up
-    under way): the wake-up that finds q empty serves the client from r *)
+    under way): the wake-up that finds q empty registers the client again and, r holding an element,
+    notifies the head of r's queue - the client itself; the next wake-up phase serves it from r *)
 Example c13_reregister_no_recheck_fixed :
   all_ok_cons sys0 w_recheck = true /\
   let st := run sys0 w_recheck in
-  out_to st 1 = [FArray [FBulk (bs "r"); FBulk (bs "b")]] /\ list_at (fst st) 0 (bs "r") = [] /\
-  waiting st 0 (bs "r") = [] /\ waiting st 0 (bs "q") = [] /\ b_wake (snd st) = [] /\ b_blk (snd st) = [].
+  out_to st 1 = [] /\ list_at (fst st) 0 (bs "r") = [bs "b"] /\ wcount 0 (bs "r") (b_wake (snd st)) = 1 /\
+  map u_conn (b_wake (snd st)) = [1] /\ waiting st 0 (bs "r") = [] /\ waiting st 0 (bs "q") = [] /\
+  let st' := step st (EWakeups 0) in
+  out_to st' 1 = [FArray [FBulk (bs "r"); FBulk (bs "b")]] /\ list_at (fst st') 0 (bs "r") = [] /\
+  waiting st' 0 (bs "r") = [] /\ waiting st' 0 (bs "q") = [] /\ b_wake (snd st') = [] /\ b_blk (snd st') = [].
 Proof. vm_compute. repeat split; reflexivity. Qed.
 (** script-push-no-notify (fixed e42ab1f; was: the client stayed Blocked beside the element the
     script pushed): the push made by the script wakes the client *)
